@@ -55,6 +55,59 @@ example : verifyChecksum [0x61] [10, 28, 25, 31, 20, 30] = false :=
 section bolt11
 open Ldk.Bolt11
 
+/-- Amount ↔ human-readable part, for every currency and every amount the builder accepts
+    (`amount_msat * 10` fits u64) and for "no amount": the HRP text the builder produces (biggest SI
+    prefix m/u/n/p that divides the pico-BTC amount) parses back to the same `RawHrp`, reads back as
+    exactly `amount_msat`, and passes the whole-millisatoshi rule (`p` amounts end in 0). -/
+theorem amount_hrp_roundtrip (cur : Currency) (msat : Option Nat) (h : RawHrp)
+    (hb : hrpOfAmount cur msat = some h) :
+    parseHrp h.toChars = .ok h ∧ h.amountMsat = msat ∧ h.amountOk = true := by
+  cases msat with
+  | none =>
+    simp only [hrpOfAmount, Option.some.injEq] at hb
+    subst hb
+    exact ⟨parseHrp_toChars_none cur, rfl, rfl⟩
+  | some m =>
+    simp only [hrpOfAmount] at hb
+    split at hb
+    · simp at hb
+    · rename_i hmax
+      simp only [Option.some.injEq] at hb
+      subst hb
+      -- the chosen prefix divides the pico amount
+      have key : ∀ p : SiPrefix, (m * 10) % p.multiplier = 0 →
+          parseHrp (RawHrp.toChars ⟨cur, some (m * 10 / p.multiplier), some p⟩)
+            = .ok ⟨cur, some (m * 10 / p.multiplier), some p⟩ ∧
+          RawHrp.amountMsat ⟨cur, some (m * 10 / p.multiplier), some p⟩ = some m ∧
+          RawHrp.amountOk ⟨cur, some (m * 10 / p.multiplier), some p⟩ = true := by
+        intro p hp
+        have hpos : 0 < p.multiplier := by cases p <;> decide
+        have hmul : m * 10 / p.multiplier * p.multiplier = m * 10 := Nat.div_mul_cancel (Nat.dvd_of_mod_eq_zero hp)
+        have hle : m * 10 / p.multiplier ≤ m * 10 := Nat.div_le_self _ _
+        have hmax' : m * 10 ≤ u64Max := by omega
+        refine ⟨parseHrp_toChars_some cur _ p (by omega) (by rw [hmul]; exact hmax'), ?_, ?_⟩
+        · simp only [RawHrp.amountMsat, RawHrp.amountPico, hmul]
+          have : ¬ m * 10 > u64Max := by omega
+          simp [this]
+        · simp only [RawHrp.amountOk, RawHrp.amountPico, hmul]
+          have : ¬ m * 10 > u64Max := by omega
+          simp [this]
+      by_cases h1 : m * 10 % 1000000000 = 0
+      · simpa [h1] using key .milli (by simpa [SiPrefix.multiplier] using h1)
+      · by_cases h2 : m * 10 % 1000000 = 0
+        · simpa [h1, h2] using key .micro (by simpa [SiPrefix.multiplier] using h2)
+        · by_cases h3 : m * 10 % 1000 = 0
+          · simpa [h1, h2, h3] using key .nano (by simpa [SiPrefix.multiplier] using h3)
+          · simpa [h1, h2, h3] using key .pico (by simp [SiPrefix.multiplier, Nat.mod_one])
+
+/-- non-vacuity: 250 000 msat is `2500n` (not `2500000p`), the largest accepted amount is a `p` amount -/
+example : (hrpOfAmount .bitcoin (some 250000)).map RawHrp.toChars = some "lnbc2500n".toList := by decide
+example : (hrpOfAmount .signet (some 1844674407370955161)).map RawHrp.toChars
+    = some "lntbs18446744073709551610p".toList := by decide
+example : hrpOfAmount .bitcoin (some 1844674407370955162) = none := by decide
+/-- the rule the parser enforces on hand-written HRPs: a pico amount not ending in 0 is rejected -/
+example : (parseHrp "lnbc2501p".toList).map RawHrp.amountOk = .ok false := rfl
+
 /-- Tagged-field framing round trip: for a 35-bit timestamp and fields whose payloads fit the 10-bit
     length (what `write_tagged_field` asserts), parsing the serialised data part gives back exactly
     the timestamp and the (tag, payload) list — no field is merged, split, dropped or reordered. -/
